@@ -5,7 +5,7 @@
    Numbers are in engine units; the passage from a system description in arbitrary units to these
    tables (librdengine.py) and the Python kinetics functions are tied by correspondence (and C04). *)
 From Coq Require Import ZArith QArith Qcanon List.
-From Verif Require Import Num Grid GridFacts Engine EngineFacts EngineBuild GridGraphRate KineticsGrid.
+From Verif Require Import Num Grid GridFacts Engine EngineFacts EngineBuild GridGraphRate KineticsGrid KineticsGraph.
 Open Scope Qc_scope.
 
 (* k[env,r] * V^(1-order) * prod x^sub  =  k * V * prod (x/V)^sub *)
@@ -62,6 +62,15 @@ Theorem C01_kinetics_grid : forall T g h, wf_grid g -> Z.of_nat (nC T) = gsize g
   kin_dxdt T g h x b i s Q = if b && Chs T i s then 0 else rate_law T (GGrid g h) x i s.
 Proof. exact kinetics_grid_is_rate_law. Qed.
 Print Assumptions C01_kinetics_grid.
+
+(* ... and kinetics.py's graph path (every node joined to the cell by get_edge counted once, with the first such edge's surface
+   and distance): the same law on every simple graph - no self-loop, at most one edge per pair of nodes; with parallel edges the
+   Python functions and the engines differ (parallel_edges_differ), which is why C15 compares them on such graphs only *)
+Theorem C01_kinetics_graph : forall T hs es x b i s Q,
+  wf_geom T (GGraph hs es) -> simple_graph (length hs) es -> paired T Q -> (i < length hs)%nat ->
+  kin_graph_dxdt T hs es x b i s Q = if b && Chs T i s then 0 else rate_law T (GGraph hs es) x i s.
+Proof. exact kinetics_graph_is_rate_law. Qed.
+Print Assumptions C01_kinetics_graph.
 
 Theorem C01_tables_are_paired : forall sys ue chs, paired (build_tables sys ue chs) (length (System.n_reactions (System.sy_net sys))).
 Proof. exact build_tables_paired. Qed.
